@@ -19,7 +19,7 @@ static int c04_main(int argc,char **argv){
     int n=split(line,tok,100000);
     if(n==0){ free(line); continue; }
     if(!strcmp(tok[0],"case")){
-      printf("== case %s\n",n>1?tok[1]:"?"); fflush(stdout);
+      printf("== case %s\n",n>1?tok[1]:"?"); fflush(stdout); case_watchdog();
     }else if(!strcmp(tok[0],"enc")&&n>=8){
       vorbis_info vi; vorbis_comment vc; vorbis_dsp_state vd; vorbis_block vb;
       vorbis_info dvi; vorbis_comment dvc; vorbis_dsp_state dvd; vorbis_block dvb;
